@@ -5,6 +5,22 @@ ROOT = os.path.dirname(os.path.dirname(os.path.abspath(__file__)))
 ids = [json.loads(l)["id"] for l in open(os.path.join(ROOT, "properties.jsonl"))]
 
 CLAIMED = {
+ "C18": dict(
+   text="Lean 4 theorems. Metadata (Props/C18.lean over Model/Metadata.lean + Model/Url.lean, validators run in the REGISTRY_KEYS order regenerated from both classes on every "
+        "run): as_/op_metadata_valid_iff_rules_partial — validate() accepts a document IFF every member satisfies its rule (required members present, endpoints https, issuer "
+        "without query / fragment, array members arrays, signing-alg lists present when JWT client authentication is advertised and never containing none, enumerated members "
+        "within their values), proved per member and lifted to any key list; guards ScalarLists / ListTyped / NoLoopbackHttp each with a witness outside; "
+        "loopback_http_issuer_accepted (negation, known finding); every_registry_key_has_a_validator. Registration (Props/C18Reg.lean over Model/Registration.lean): "
+        "validated_metadata_is_good (a successful ClientMetadataClaims.validate stores only absolute fragment-free URIs and supported scope / grant types / response types / "
+        "auth method), store_good_over_every_history (INVARIANT over all sequences of register / update requests, merge included), register_without_token_refused, "
+        "update_other_client_refused, update_wrong_secret_refused, update_server_member_refused (list regenerated from the endpoint source), all with the store unchanged. "
+        "Correspondence: ~4 000 (quick) metadata documents (every member × retype pool, pairs) on both classes with outcome class AND message compared; registration / update "
+        "requests and short histories on the real endpoints with outcome and stored metadata compared; independent statement oracle.",
+   note="PARTIAL as labelled (guards above). Readings: scalar / URL members are present when truthy, array members when non-null. Trusted: Lean kernel; urlsplit subset (printable ASCII, no "
+        "brackets); jwks verdict abstract; in-memory registration endpoints (regworld.py); OIDC registration claims class (oidc/registration/claims.py) not modelled. Observation: an object "
+        "given as grant_types / response_types is accepted by its keys; 0/1 accepted for boolean members.",
+   technique="Lean 4 proof (per-member iff lifted over regenerated key lists; validated-metadata invariant over all histories) + differential correspondence + statement oracle",
+   design="§4 C18"),
  "C17": dict(
    text="Lean 4 theorems over the transition system Model/AsyncRefresh.lean (N coroutines, lock, token version, counters; scheduler picks any enabled step, the token "
         "endpoint's answers are the environment's choice, lock handed to any waiter), by an 11-clause invariant preserved by every step (step_preserves_inv) and induction "
